@@ -50,6 +50,12 @@ def run(ctx):
         for i in range(nt):
             p = mk(rng)
             xs = D.shifty_stream(rng, ln, grid=rng.choice([None, None, 0.5]))
+            if kind == "Cusum" and i % 5 == 2:
+                # the cumulative-sum test works on standardised observations: the same stream in very small or very large units
+                sc = rng.choice([1e-9, 1e-12, 1e7])
+                xs = [x * sc for x in xs]
+                if p["target"] is not None:
+                    p["target"], p["sd_hat"] = p["target"] * sc, p["sd_hat"] * sc
             script = [("update", x) for x in xs]
             if kind == "PageHinkley":
                 for _ in range(rng.randint(0, 3)):
